@@ -168,7 +168,7 @@ func runHistory(w *World, inst *Instance, p map[string]int, class string, cc *cr
 		}
 	}
 	for i := 0; i < nOps && alive(); i++ {
-		switch t.Weighted([]int{10, 3, 3, 3, 2, 2, 2, 1}) {
+		switch t.Weighted([]int{10, 3, 3, 3, 2, 2, 2, 1, param(p, "burstw", 1)}) {
 		case 0:
 			w.MineOnTip(t, 70)
 		case 1:
@@ -209,7 +209,7 @@ func runHistory(w *World, inst *Instance, p map[string]int, class string, cc *cr
 				cc.pendingImports = append(cc.pendingImports, src)
 			}
 		case 6: // create another wallet
-			if len(inst.Wallets) >= 4 {
+			if len(inst.Wallets) >= 5 {
 				break
 			}
 			ws, err := inst.CreateWallet(fmt.Sprintf("extra%dPass", len(inst.Wallets)), 128, t.Bool(50))
@@ -220,6 +220,51 @@ func runHistory(w *World, inst *Instance, p map[string]int, class string, cc *cr
 			} else if errors.Is(err, ErrCrashed) {
 				cc.inflightCreates++
 			}
+		case 8:
+			// burst: background tasks requested back to back while the worker
+			// gets (almost) no steps - the admission limit is used up: one
+			// task in the worker's hands, three waiting
+			first := true
+			for k := 0; k < 5 && !(w.S.CrashRequested || inst.Dead); k++ {
+				ids := liveWallets(inst)
+				var src *WalletState
+				for _, r := range w.Removed {
+					if _, exists := inst.Wallets[r.ID]; !exists {
+						src = r
+						break
+					}
+				}
+				accepted := false
+				switch {
+				case len(ids) > 1 && (src == nil || t.Bool(70)):
+					id := ids[t.Int(len(ids))]
+					ws := inst.Wallets[id]
+					err := inst.RemoveWallet(id, ws.Pass, true)
+					noteErr(err, ws)
+					accepted = err == nil
+				case src != nil:
+					nw, err := inst.ImportMnemonic(src, uint32(len(src.Issued)), true)
+					if err == nil {
+						nw.Issued = src.Issued
+						w.Gen.AddWalletParty(nw)
+						accepted = true
+					} else if errors.Is(err, ErrCrashed) {
+						cc.pendingImports = append(cc.pendingImports, src)
+					}
+				}
+				if accepted && first && !(w.S.CrashRequested || inst.Dead) {
+					// let the worker take the first task out of the queue
+					first = false
+					w.runSteps(1 + t.Int(4))
+				}
+			}
+			if !(w.S.CrashRequested || inst.Dead) && inst.WM.SimTaskQueueLen() >= 3 {
+				w.Stat("probe.task_queue_full")
+				if wg := inst.workerG; wg != nil && !wg.done && wg.parked != "worker.select" && wg.parked != "worker.init" {
+					w.Stat("probe.four_tasks_unfinished")
+				}
+			}
+			w.Stat("op.task_burst")
 		case 7: // mid-run check
 			if !(w.S.CrashRequested || inst.Dead) {
 				w.CheckInstance(inst, class, cc)
